@@ -1,11 +1,31 @@
-(* Correspondence for C06 over scripted clients against the real Server: the
-   comparison with Model B is restricted to the projection of the observation
-   that C06 talks about; the check is C06's decidable clause on the observation. *)
+(* Correspondence for C06: the receive side over scripted clients against the
+   real Server (projection and check from Corr/HsChecks.v), and the send side:
+   every send operation called at every stage of the handshake and teardown of
+   both roles. *)
 From Coq Require Import List Bool Arith String.
 Import ListNotations.
-From Lime Require Import Base.Res Hs.Types Hs.Server Hs.Monitor Corr.HsServer Corr.HsChecks.
-Definition case := scase.
-Definition check (c : scase) : bool := c06_check c.
-Definition agrees (c : scase) : bool := evs_eqb (fst (c06_proj (k_obs c))) (fst (c06_proj (model_obs c))) && Bool.eqb (snd (c06_proj (k_obs c))) (snd (c06_proj (model_obs c))).
-Definition mismatches (cs : list scase) : list nat := bad_indices agrees cs.
-Definition violations (cs : list scase) : list nat := bad_indices check cs.
+From Lime Require Import Base.Res Hs.Types Hs.Server Hs.Monitor Corr.HsServer Corr.HsChecks Chan.Gate.
+
+Inductive case :=
+| GScript (c : scase)
+(* a send operation on a channel whose State() and transport Connected() were sampled just
+   before: did it return nil, and how many envelopes did the peer see because of it *)
+| GSend (client_role : bool) (st : state) (connected : bool) (op : sendop) (o_ok : bool) (o_emitted : nat).
+
+Definition check (c : case) : bool :=
+  match c with
+  | GScript s => c06_check s
+  | GSend _ st conn _ ok emitted =>
+      (* before establishment and after finished/failed: an error, and nothing on the wire *)
+      if state_eqb st SEstablished then true else negb ok && Nat.eqb emitted 0
+  end.
+Definition agrees (c : case) : bool :=
+  match c with
+  | GScript s =>
+      evs_eqb (fst (c06_proj (k_obs s))) (fst (c06_proj (model_obs s))) &&
+      Bool.eqb (snd (c06_proj (k_obs s))) (snd (c06_proj (model_obs s)))
+  | GSend _ st conn op ok emitted =>
+      let (mok, mem) := gate st conn op in Bool.eqb ok mok && Nat.eqb emitted mem
+  end.
+Definition mismatches (cs : list case) : list nat := bad_indices agrees cs.
+Definition violations (cs : list case) : list nat := bad_indices check cs.
